@@ -5,6 +5,9 @@
 #[verifier::reject_recursive_types(E)]
 //@ enditem
 
+//@ item src/sources/generic.rs / impl AsFd for NoIoDrop<T> props=C16
+//@ enditem
+
 //@ region generic_specs props=C16,C01,C07,C15
 impl<F: AsFd, E> Generic<F, E> {
     /// token remembered at (re)registration, cleared at unregistration
